@@ -77,7 +77,7 @@ Fixpoint wires_distinct (seen : list wirek) (ts : list ty) : bool :=
               | None => false
               end
   end.
-Definition union_ok (ts : list ty) : bool := wires_distinct [] ts.
+Definition union_ok (ts : list ty) : bool := wires_distinct [] ts && negb (none_first2 ts).   (* not Union[None, X]: finding F55 *)
 
 (* ---- keys: every dumped key of a class resolves back to its own field ------------------- *)
 Fixpoint keys_resolve (c : cinfo) (fs : list finfo) (i : nat) : bool :=
